@@ -86,3 +86,51 @@ def compare(idl_text, rs_path):
     boxes, why = emitted_boxes(open(rs_path).read(), items)
     impl = " ".join(f"{s}.{i}" for s, i in boxes) if boxes is not None else "unreadable: " + why
     return req, impl, model, len(items)
+
+
+# ------------------------------------------------------------------ automatic derives (PartialOrd; Hash, Eq, Ord)
+def derive_class(t, index):
+    """a field type as the AutoDerive predicate and its path collector see it (Vec layers stripped)"""
+    t = t.strip()
+    while t.startswith("list<") and t.endswith(">"):
+        t = t[5:-1].strip()
+    if t.startswith(("map<", "set<")):
+        return "ms"
+    if t == "double":
+        return "fl"
+    if t in index:
+        return f"p{index[t]}"
+    return "o"
+
+
+def derive_request(items):
+    index = {name: i for i, (_, name, _) in enumerate(items)}
+    return "derives " + " ".join("(" + " ".join(derive_class(t, index) for _, t in fields) + ")" for _, _, fields in items)
+
+
+def emitted_derives(rs_text, items):
+    """-> (items whose emitted type carries PartialOrd, items that carry Hash), by the derive line in front of the type"""
+    flat = re.sub(r"\s+", " ", rs_text)
+    po, h = [], []
+    for i, (kind, name, _) in enumerate(items):
+        m = re.search(r"#\[derive\(([^)]*)\)\] pub (?:struct|enum) " + re.escape(name) + r"[ ({]", flat)
+        if not m:
+            return None, f"type {name} not found in the emitted code"
+        ds = [d.strip() for d in m.group(1).split(",")]
+        if "PartialOrd" in ds:
+            po.append(i)
+        if "Hash" in ds:
+            h.append(i)
+    fmt = lambda l: ",".join(map(str, l)) if l else "-"
+    return f"po={fmt(po)} h={fmt(h)}", ""
+
+
+def compare_derives(idl_text, rs_path):
+    items = parse_items(idl_text)
+    req = derive_request(items)
+    p = subprocess.run([PMODEL], input=req + "\n", stdout=subprocess.PIPE, stderr=subprocess.DEVNULL, text=True, timeout=600)
+    model = p.stdout.strip().split("\n")[0] if p.stdout.strip() else f"no answer (rc={p.returncode})"
+    impl, why = emitted_derives(open(rs_path).read(), items)
+    if impl is None:
+        impl = "unreadable: " + why
+    return req, impl, model, len(items)
